@@ -11,8 +11,8 @@
 package bed
 
 import (
+	"bufio"
 	"bytes"
-	"encoding/csv"
 	"fmt"
 	"io"
 	"strconv"
@@ -231,15 +231,13 @@ func parseLine(fields []string) (*BED, error) {
 
 // A reader reads and parses BED lines.
 type reader struct {
-	r *csv.Reader
+	r *bufio.Reader
+	n int // Number of fields in the first line, 0 before reading it.
 }
 
 // newReader returns a new BED reader that reads from r.
 func newReader(r io.Reader) *reader {
-	cr := csv.NewReader(r)
-	cr.Comma = '\t'
-	cr.Comment = '#'
-	return &reader{cr}
+	return &reader{r: bufio.NewReader(r)}
 }
 
 // read returns the next BED line, and n as the number of fields that were found.
@@ -249,9 +247,27 @@ func newReader(r io.Reader) *reader {
 // For example if n=5, then the populated fields are Chrom, ChromStart, ChromEnd,
 // Name and Score.
 func (r *reader) read() (b *BED, err error) {
-	line, err := r.r.Read()
-	if err != nil {
-		return nil, err
+	for {
+		// BED has no quoting, so lines are split on tabs as they are.
+		text, err := r.r.ReadString('\n')
+		if err != nil && err != io.EOF {
+			return nil, err // Read failure. Drop the partial line.
+		}
+		text = strings.TrimSuffix(strings.TrimSuffix(text, "\n"), "\r")
+		if text == "" || text[0] == '#' { // Skip empty lines and comments.
+			if err == io.EOF {
+				return nil, io.EOF
+			}
+			continue
+		}
+		line := strings.Split(text, "\t")
+		if r.n == 0 {
+			r.n = len(line)
+		}
+		if len(line) != r.n {
+			return nil, fmt.Errorf("wrong number of fields: %v, want %v",
+				len(line), r.n)
+		}
+		return parseLine(line)
 	}
-	return parseLine(line)
 }
